@@ -1039,6 +1039,10 @@ func runDasCheck(t *testing.T, prop string) {
 	}
 	rep.Set("event_class_counts", allEvents)
 	rep.Set("explanation", "exhaustive within the stated depth bound per configuration unless 'capped' is set for a run")
+	// SC part: statistics / checkpoint requests overlapping running workers (das_sc_test.go)
+	if !dasSC(t, rep, prop, rep.Deadline(240*time.Second, 60*time.Minute)) {
+		exhaustive = false
+	}
 	rep.SetExhaustive(exhaustive)
 	if rep.Finish() > 0 {
 		t.Fail()
@@ -1052,12 +1056,42 @@ func replayDas(t *testing.T, rep *vx.Report, path, prop string) {
 	}
 	var doc struct {
 		Replay struct {
-			Cfg     dasCfg   `json:"cfg"`
-			History []string `json:"history"`
+			Cfg      dasCfg      `json:"cfg"`
+			History  []string    `json:"history"`
+			Part     string      `json:"part"`
+			Scenario dscScenario `json:"scenario"`
+			Choices  []int       `json:"choices"`
 		} `json:"replay"`
 	}
 	if err := json.Unmarshal(b, &doc); err != nil {
 		t.Fatalf("replay: %v", err)
+	}
+	if doc.Replay.Part == "das-sc" {
+		var verr error
+		for i := 0; i < 5; i++ {
+			e := vx.NewExec(doc.Replay.Choices)
+			err := dscRun(t, doc.Replay.Scenario, e, prop)
+			if e.Diverged != "" {
+				t.Fatalf("NONDETERMINISM: %s", e.Diverged)
+			}
+			if i == 0 {
+				for _, l := range e.Trace() {
+					fmt.Printf("REPLAY-STEP %s\n", l)
+				}
+			} else if (err == nil) != (verr == nil) {
+				t.Fatalf("NONDETERMINISM: replay %d gave %v, earlier %v", i, err, verr)
+			}
+			verr = err
+		}
+		rep.Count(5, 2, 1, int64(len(doc.Replay.Choices)))
+		if verr != nil {
+			fmt.Printf("REPLAY-RESULT violation reproduced 5/5: %v\n", verr)
+			rep.Violation(vSig(verr), verr.Error(), doc.Replay)
+		} else {
+			fmt.Println("REPLAY-RESULT no violation")
+		}
+		rep.Finish()
+		return
 	}
 	vProp = prop
 	vRetryOrder = doc.Replay.Cfg.RetryOrder
